@@ -106,6 +106,9 @@ pub fn test_tool(file: &KFile) -> TestResult {
     let run = |data: &[u8]| -> Result<util::RunOut, String> {
         std::fs::write(&fin, data).map_err(|e| e.to_string())?;
         let _ = std::fs::remove_file(&fout);
+        if data.len() % 2 == 0 {
+            util::prefill(&fout, data.len());
+        }
         util::run_tool(
             "convert_kytea_model",
             &["--model-in".into(), fin.to_string_lossy().to_string(), "--model-out".into(), fout.to_string_lossy().to_string()],
